@@ -134,6 +134,9 @@ def real_cipher(shape, K, T=None):
         return TDEA(K)                     # one string of 8, 16 or 24 bytes
     if c == 'serpent':
         from crysp.serpent import Serpent
+        if shape.get('kbits'):
+            from crysp.bits import Bits
+            return Serpent(Bits(K, shape['kbits']))        # key given as a bit vector of any length up to 256
         return Serpent(K)
     if c.startswith('threefish'):
         from crysp.threefish import Threefish
@@ -151,7 +154,11 @@ def tdea_keys(shape, K):
 
 def ref_crypt(shape, K, T, B, decrypt, symbolic):
     c = shape['cipher']
-    K, B = list(K), list(B)
+    B = list(B)
+    if c == 'serpent' and shape.get('kbits'):
+        lv = SerpentUF if symbolic else RC.SerpentStd
+        return (RC.serpent_dec if decrypt else RC.serpent_enc)(K, B, lv, shape['kbits'])
+    K = list(K)
     if c.startswith('aes'):
         lv = AesUF if symbolic else RC.AesStd
         return (RC.aes_dec if decrypt else RC.aes_enc)(K, B, lv)
@@ -172,6 +179,8 @@ def configs(tier):
         out.append(dict(cipher='tdea', form=f, kl=kl, bl=8))
     for kl in ((1, 15, 16, 24, 31, 32) if tier == 'quick' else range(1, 33)):
         out.append(dict(cipher='serpent', kl=kl, bl=16))
+    for kb in ((1, 7, 129, 255) if tier == 'quick' else (1, 2, 7, 9, 31, 33, 63, 65, 127, 129, 191, 193, 254, 255)):
+        out.append(dict(cipher='serpent', kl=0, kbits=kb, bl=16))
     for n in (32, 64, 128):
         out.append(dict(cipher='threefish%d' % (8 * n), kl=n, bl=n, tl=16))
     return out
@@ -183,8 +192,8 @@ class Crypt(Case):
     uf_concrete = UFC
     timeout_s = 900
     bounds = ('enc(B) and dec(B) with key, tweak and block ALL symbolic: AES-128/192/256, DES, TDEA in its six call forms (1/2/3 key arguments; one string of 8/16/24 bytes), '
-              'Serpent with key length 1,15,16,24,31,32 bytes (quick) / every 1..32 (thorough), Threefish-256/512/1024; result has the block length')
-    outside = 'Serpent keys that are not a whole number of bytes'
+              'Serpent with key length 1,15,16,24,31,32 bytes (quick) / every 1..32 (thorough) and keys given as bit vectors of 1,7,129,255 bits (quick; 14 odd lengths thorough), Threefish-256/512/1024; result has the block length')
+    outside = 'Serpent bit-vector keys of lengths other than those enumerated'
     stub_note = ('UF leaves: AES S-box/inverse S-box (byte), DES S1..S8 (6->4 bit), Serpent S0..S7 and inverses (bitslice, 128->128) with lemmas C02.leaf; '
                  'summary gmul(a,c) -> xtime form with lemma C02.leaf gmul; reverse_byte summary (lemma C01/C07)')
 
@@ -194,7 +203,8 @@ class Crypt(Case):
                 yield dict(cfg, dir=d)
 
     def mk(self, shape, src):
-        return (src.bytes('K', shape['kl']), src.bytes('T', shape.get('tl', 0)), src.bytes('B', shape['bl']))
+        K = src.int('Kb', shape['kbits']) if shape.get('kbits') else src.bytes('K', shape['kl'])
+        return (K, src.bytes('T', shape.get('tl', 0)), src.bytes('B', shape['bl']))
 
     def stubs(self, shape):
         from symx.harness import patched
